@@ -10,7 +10,8 @@ CLAIM = {
          "in request order, carrying the request's xid and the data the specification requires from the switch state at that point, and the specified "
          "error type/code for invalid ports, queues, stats types, vendors, commands and buffers, and for requests invalid at the framing level (a bare "
          "8-byte header of a type with a mandatory body: BAD_LEN; an unknown message type 22..255: BAD_TYPE) with the request's xid; no exception "
-         "escapes and the connection stays open.",
+         "escapes and the connection stays open."
+         " Also: over-long statistics requests, header-rejected requests delivered in two segments, queue-config requests for any port, and a switch whose flow table is at capacity (O2_full_table).",
  'note': "Trusted: CPython, z3, symx proxies/shims, the expected-reply table in props/C13.py. Bounded: 3 requests per sequence, switch with 4 ports and "
          "at most one installed flow.",
 }
